@@ -59,7 +59,8 @@ PredFn(p, v) ==
 \* ---- stages (uniform record so that TLC sets and JSON rows share one shape) -------------
 \*   base      f = subspec, v = sentinel (STOP when not given), b = 1 iff sentinel= was passed
 \*   map       f            filter / takewhile / dropwhile   f = predicate      unique  f = key
-\*   slice     a = start, b = stop (-1 = None), c = step, f = "slice" | "limit" (spelling)
+\*   slice     a = start, b = stop (-1 = None), c = step, f = "slice" | "limit" | "slice1" (spelling:
+\*             slice(a, b[, c]) | limit(b) | slice(b))
 \*   chunked   a = size, b = 1 iff fill given, v = fill      windowed  a = size
 \*   split     f = "none" | "scalar" | "set" (kind of sep), v = the separator, b = maxsplit (-1 = None)
 \*   flatten
